@@ -1,5 +1,5 @@
 \* generation (quick): the complete transition graph of the 2-contract/1-key/2-value model,
-\* one snapshot level, <= 2 log entries in total, one Update per block
+\* one snapshot level, <= 2 log entries in total
 SPECIFICATION Spec
 CONSTANTS
   Accts = {}
@@ -14,7 +14,6 @@ CONSTANTS
   MaxCommits = 1
 VIEW mcView
 CONSTRAINT StateConstraint
-ACTION_CONSTRAINT UpdateThenCommit
 ACTION_CONSTRAINT GenLog
 INVARIANT GenState
 CHECK_DEADLOCK FALSE
